@@ -25,8 +25,8 @@ def addc (rw a b ci : Nat) : Nat := (a + b + ci) % 2^rw
 def sub (rw a b : Nat) : Nat := Bits.put rw ((a:Int) - (b:Int))
 def mul (rw a b : Nat) : Nat := (a * b) % 2^rw
 def zext (rw a : Nat) : Nat := a % 2^rw
-def rotl (rw w a n : Nat) : Nat := ((a <<< n) ||| (a >>> (w - n))) % 2^rw
-def rotr (rw w a n : Nat) : Nat := ((a >>> n) ||| (a <<< (w - n))) % 2^rw
+def rotl (rw w a n : Nat) : Nat := (((a <<< n) ||| (a >>> (w - n))) % 2^w) % 2^rw
+def rotr (rw w a n : Nat) : Nat := (((a >>> n) ||| (a <<< (w - n))) % 2^w) % 2^rw
 def div (rw a b : Nat) : Nat := (a / b) % 2^rw       -- b ≠ 0
 def mod (rw a b : Nat) : Nat := (a % b) % 2^rw       -- b ≠ 0
 def bits (w a : Nat) : List Nat := (List.range w).map fun i => (a >>> i) % 2
@@ -130,13 +130,17 @@ theorem gen_rotl (rw w a n : Nat) (h : n ≤ w) :
     landed rw (Gen.RotateLeftConstant.step ⟨n, w⟩ ⟨⟩ ⟨a⟩ ⟨⟩).2.r = rotl rw w a n := by
   simp only [Gen.RotateLeftConstant.step, Id.run, pure, landed, rotl, Option.getD, Py.shlT, Py.shrT,
     Int.toNat_natCast]
-  rw [show ((w:Int) - (n:Int)).toNat = w - n by omega, Bits.shl_ofNat, Bits.shr_ofNat, Bits.lor_ofNat, Bits.put_ofNat]
+  rw [show ((w:Int) - (n:Int)).toNat = w - n by omega, Bits.shl_ofNat, Bits.shr_ofNat, Bits.lor_ofNat, Bits.land_mask]
+  rw [show (((a <<< n ||| a >>> (w - n) : Nat) : Int) % (2:Int)^w) = (((a <<< n ||| a >>> (w - n)) % 2^w : Nat) : Int) by simp,
+    Bits.put_ofNat]
 
 theorem gen_rotr (rw w a n : Nat) (h : n ≤ w) :
     landed rw (Gen.RotateRightConstant.step ⟨n, w⟩ ⟨⟩ ⟨a⟩ ⟨⟩).2.r = rotr rw w a n := by
   simp only [Gen.RotateRightConstant.step, Id.run, pure, landed, rotr, Option.getD, Py.shlT, Py.shrT,
     Int.toNat_natCast]
-  rw [show ((w:Int) - (n:Int)).toNat = w - n by omega, Bits.shl_ofNat, Bits.shr_ofNat, Bits.lor_ofNat, Bits.put_ofNat]
+  rw [show ((w:Int) - (n:Int)).toNat = w - n by omega, Bits.shl_ofNat, Bits.shr_ofNat, Bits.lor_ofNat, Bits.land_mask]
+  rw [show (((a >>> n ||| a <<< (w - n) : Nat) : Int) % (2:Int)^w) = (((a >>> n ||| a <<< (w - n)) % 2^w : Nat) : Int) by simp,
+    Bits.put_ofNat]
 
 theorem gen_repeat (rw i : Nat) :
     landed rw (Gen.Repeat.step ⟨rw⟩ ⟨⟩ ⟨i⟩ ⟨⟩).2.r = repeat1 rw i := by
